@@ -127,10 +127,10 @@ func init() {
 		}))
 	})
 	reg("(*regexp.Regexp).MatchString", func(m *Machine, fr *frame, a []Value) Value {
-		return BoolT(reOf(m, a[0]).MatchString(m.concStr(a[1], "Regexp.MatchString")))
+		return m.symMatch(reOf(m, a[0]), a[1].(Str), "Regexp.MatchString")
 	})
 	reg("(*regexp.Regexp).Match", func(m *Machine, fr *frame, a []Value) Value {
-		return BoolT(reOf(m, a[0]).MatchString(m.concStr(strOfSlice(a[1].([]Value)), "Regexp.Match")))
+		return m.symMatch(reOf(m, a[0]), strOfSlice(a[1].([]Value)), "Regexp.Match")
 	})
 	reg("(*regexp.Regexp).FindString", func(m *Machine, fr *frame, a []Value) Value {
 		return CStr(reOf(m, a[0]).FindString(m.concStr(a[1], "Regexp.FindString")))
